@@ -21,7 +21,39 @@ TYPES = {
     "listint": (typing.List[int], [[1, 2], []], ["1,2", ("3",), ["4"]], ["x,y", [None], {"a": 1}]),
     "optint": (typing.Optional[int], [5, None], ["5", "null"], ["x", [1, 2]]),
 }
-DEFAULTS = {"int": [7, 0], "str": ["d", ""], "listint": [[9], []], "optint": [None, 3]}
+DEFAULTS = {"int": [7, 0], "str": ["d", ""], "listint": [[9], []], "optint": [None, 3], "dictint": [{}], "unionil": [1], "tuple2": [(0, "z")],
+            "andpos": [1], "nested": [None], "posint": [2]}
+_EXT = {}
+
+
+def ext_types():
+    """richer field types (nested failures, unions whose every branch fails, conjunctions, nested data class)"""
+    if _EXT:
+        return _EXT
+    import utype
+    from utype import Rule
+    from utype.parser.rule import LogicalType
+
+    class Inner(utype.Schema):
+        p: int
+        q: int = 0
+
+    Inner.__module__ = "vmon_generated"
+    Pos = Rule.annotate(int, constraints={"ge": 0})
+    Even = Rule.annotate(int, constraints={"multiple_of": 2})
+    _EXT.update({
+        "dictint": (typing.Dict[str, int], [{"a": 1}, {}], [{"a": "1"}, [("k", 2)]], [{"a": "x"}, "zzz", {"a": "x", "b": "y"}]),
+        "unionil": (typing.Union[int, typing.List[int]], [5, [1]], ["5", ["2"]], ["x", ["x"], {"a": 1}]),
+        "tuple2": (typing.Tuple[int, str], [(1, "a")], [["1", "a"], ("2", b"b")], [(1,), ("x", "a"), "q"]),
+        "andpos": (LogicalType.all_of(Pos, Even), [4, 0], ["6"], [3, -2, "x"]),
+        "posint": (Pos, [3, 0], ["4"], [-1, "x"]),
+        "nested": (typing.Optional[Inner], [None, {"p": 1}], [{"p": "1", "q": "2"}], [{"q": 1}, {"p": "x", "q": "y"}, 5]),
+    })
+    return _EXT
+
+
+def type_info(t):
+    return TYPES[t] if t in TYPES else ext_types()[t]
 
 
 def no_input_none(v):
@@ -221,7 +253,7 @@ def build(decl, extra_options=None):
     name = "D%d" % next(_uid)
     ns = {"__annotations__": {}, "__module__": "vmon_generated", "__qualname__": name, "__options__": opts}
     for f in decl["fields"]:
-        ns["__annotations__"][f["name"]] = TYPES[f["type"]][0]
+        ns["__annotations__"][f["name"]] = type_info(f["type"])[0]
         if _needs_field_obj(f):
             ns[f["name"]] = _field_obj(f)
         elif f["default"] is not NODEF:
@@ -236,7 +268,10 @@ def build_function(decl, opts):
     params = []
     ns = {"utype": utype, "typing": typing, "_F": {}}
     for f in decl["fields"]:
-        tname = {"int": "int", "str": "str", "listint": "typing.List[int]", "optint": "typing.Optional[int]"}[f["type"]]
+        tname = {"int": "int", "str": "str", "listint": "typing.List[int]", "optint": "typing.Optional[int]"}.get(f["type"])
+        if tname is None:
+            ns.setdefault("_T", {})[f["type"]] = type_info(f["type"])[0]
+            tname = f"_T[{f['type']!r}]"
         if _needs_field_obj(f) or f["default"] is not NODEF:
             if _needs_field_obj(f):
                 ns["_F"][f["name"]] = _field_obj(f, for_function=True)
@@ -289,7 +324,7 @@ def gen_input(rng, decl, p_absent=0.25, p_extra=0.3, value_mix=(0.6, 0.25, 0.15)
         if r < p_absent:
             plan[f["name"]] = "absent"
             continue
-        valid, conv, invalid = TYPES[f["type"]][1:]
+        valid, conv, invalid = type_info(f["type"])[1:]
         rv = rng.random()
         if rv < value_mix[0] or (not conv and not invalid):
             val, vk = rng.choice(valid), "valid"
